@@ -129,6 +129,8 @@ def source_scan(modules=None):
 NAMESPACES = {'Lemmas.MiniPyFuel': 'Bridge.Py',
               # the regular-expression engine on the patterns of the source = the hand scanners (Appendix F)
               'Lemmas.RegexPbn': 'Bridge.RegexPbn', 'Lemmas.RegexHands': 'Bridge.RegexHands',
+              'Lemmas.RegexConnect': 'Bridge.RegexConnect', 'Lemmas.RegexConnectB': 'Bridge.RegexConnect', 'Translated.ConnectInfo': 'Bridge.Translated.ConnectInfo',
+              'Translated.ThreadsSeatE': 'Bridge.Translated.SeatE',
               'Translated.HandsPbn': 'Bridge.Translated.HandsPbn', 'Translated.HandsPbnClosed': 'Bridge.Translated.HandsPbn',
               # the theorem families about the translated THREAD programs live in their own namespaces
               'Translated.ThreadsMainA': 'Bridge.Translated.MainA', 'Translated.ThreadsMainB': 'Bridge.Translated.MainB',
